@@ -47,6 +47,8 @@ ACCEPTED PYTHON                                   LEAN
     Nat  non-negative int        Int  int         Rat  exact number (float read as rational)
     Bool                         Bytes = List Nat Option T (None | T)      tuples      Unit (None)
   int literal (decimal/0x/0b/0o) >= 0             the literal, at the type it is used at
+  float literal >= 0 with an integer value (0.0)  that integer (times are integer ticks, DESIGN section 4; `/` stays rejected,
+                                                   so the only operations it meets are + - * and comparisons, exact on both sides)
   True / False ; b'..' literal                     true / false ; [..]
   name of a parameter / local / bound text         the variable
   a + b, a * b   (numbers)                         a + b, a * b at the join of Nat < Int < Rat
@@ -626,6 +628,8 @@ class Translator:
             return ('true' if v else 'false'), BOOL
         if isinstance(v, int) and v >= 0:
             return str(v), NAT
+        if isinstance(v, float) and v >= 0 and v == int(v) and abs(v) < 2 ** 53:
+            return str(int(v)), NAT          # an integer-valued float literal (0.0, 1000.0): times are ticks
         if isinstance(v, bytes):
             return '([%s] : List Nat)' % ', '.join(str(b) for b in v), BYTES
         if isinstance(v, str):
@@ -1707,6 +1711,147 @@ def build_sites(repo):
                            '_check_length(sep_index)': ('readUntilCheckLength', ['self._awaiting.max_bytes', 'sep_index'])},
                     rewrite={'pos += len(chunk)': 'pass', 'data = _buffer[sep_index:]': 'pass',
                              'self._awaiting = self._gen.send(_buffer[:sep_index])': 'sent = sep_index', 'del _buffer[:]': 'pass'})
+
+    # ---- added by helper SITES: event bookkeeping, feed guard, send decisions, stream fragments, Text, selector, proxy choice ----
+    T2 = {n: parse_file(repo, n + '.py') for n in ('stream', 'selectors')}
+
+    def sess_fn(name):
+        return method(klass(T['session'], 'WebsocketSession'), name)
+
+    @site('sessionOnEvent')
+    def _():
+        fn = sess_fn('_on_event')
+        require([a.arg for a in fn.args.args] == ['self', 'event', 'auto_pong'] and [ast.unparse(d) for d in fn.args.defaults] == ['True'],
+                'WebsocketSession._on_event(self, event, auto_pong=True)')
+        return Site('sessionOnEvent',
+                    'session.py WebsocketSession._on_event (name = event.name); result = (handler called: 0 none, 1 _on_ready(), '
+                    '2 _send_pong(event), 3 _on_pong(event); self._ready afterwards)',
+                    [('name', STR), ('auto_pong', BOOL), ('ready', BOOL)], body_of(fn),
+                    prefix='handler = 0', outputs=['handler', 'ready'],
+                    bind={'event.name': 'name', 'self._ready': 'ready'},
+                    rewrite={'self._on_ready()': 'handler = 1', 'self._send_pong(event)': 'handler = 2',
+                             'self._on_pong(event)': 'handler = 3'})
+
+    @site('sessionOnPong')
+    def _():
+        return Site('sessionOnPong', 'session.py WebsocketSession._on_pong; result = self._last_pong afterwards',
+                    [('session_time', NAT), ('last_pong', NAT)], body_of(sess_fn('_on_pong')),
+                    bind={'self.session_time': 'session_time', 'self._last_pong': 'last_pong'}, outputs=['last_pong'])
+
+    @site('sessionOnReady')
+    def _():
+        return Site('sessionOnReady',
+                    'session.py WebsocketSession._on_ready (now = time.time()); result = (self._last_pong, self._next_ping, self._start_time) afterwards',
+                    [('last_pong', NAT), ('next_ping', NAT), ('start_time', OPT(NAT)), ('now', NAT)], body_of(sess_fn('_on_ready')),
+                    bind={'self._last_pong': 'last_pong', 'self._next_ping': 'next_ping', 'self._start_time': 'start_time',
+                          'time.time()': 'now'},
+                    outputs=['last_pong', 'next_ping', 'start_time'])
+
+    @site('sessionSessionTime')
+    def _():
+        fn = sess_fn('session_time')
+        require([ast.unparse(d) for d in fn.decorator_list] == ['property'], 'WebsocketSession.session_time is a property')
+        return Site('sessionSessionTime', 'session.py WebsocketSession.session_time (now = time.time())',
+                    [('start_time', OPT(NAT)), ('now', NAT)], body_of(fn),
+                    bind={'self._start_time': 'start_time', 'time.time()': 'now'})
+
+    @site('wsFeedGuard')
+    def _():
+        flag_props()
+        st = ws('feed')[0]
+        require(isinstance(st, ast.If) and [ast.unparse(x) for x in st.body] == ['return'] and not st.orelse,
+                'WebSocket.feed no longer starts with `if ..: return`')
+        return Site('wsFeedGuard', 'websocket.py WebSocket.feed: its first statement; result = the data is fed to the stream',
+                    [('closed', BOOL), ('closing', BOOL)], [st], result='True', bind=WS_FLAGS, rewrite={'return': 'return False'})
+
+    @site('wsIsActive')
+    def _():
+        fn = method(ws_cls(), 'is_active')
+        require([ast.unparse(d) for d in fn.decorator_list] == ['property'], 'WebSocket.is_active is a property')
+        return Site('wsIsActive', 'websocket.py WebSocket.is_active', [('closed', BOOL), ('closing', BOOL)], body_of(fn), bind=WS_FLAGS)
+
+    def send_data_site(name, fn, op, guard, guard_param, var, extra):
+        m = method(ws_cls(), fn)
+        require([a.arg for a in m.args.args][2:] == ['compress'] and [ast.unparse(d) for d in m.args.defaults] == ['True']
+                and len(m.args.args) == 3, 'WebSocket.%s(self, .., compress=True)' % fn)
+        return Site(name,
+                    'websocket.py WebSocket.%s (%s = `%s`, compression = bool(self.state.compression)); result = (which session method '
+                    'sends the payload: 1 send, 2 send_compressed with self.state.compression.compress; its opcode argument)' % (fn, guard_param, guard),
+                    [(guard_param, BOOL), ('compress', BOOL), ('compression', BOOL)], body_of(m), consts=OPC,
+                    bind={guard: guard_param, 'self.state.compression': 'compression'},
+                    rewrite=dict({'self.session.send_compressed(Opcode.%s, %s, self.state.compression.compress)' % (op, var): 'return (2, Opcode.%s)' % op,
+                                  'self.session.send(Opcode.%s, %s)' % (op, var): 'return (1, Opcode.%s)' % op}, **extra))
+
+    @site('wsSendBinary')
+    def _():
+        return send_data_site('wsSendBinary', 'send_binary', 'BINARY', 'isinstance(data, bytes)', 'is_bytes', 'data', {})
+
+    @site('wsSendText')
+    def _():
+        return send_data_site('wsSendText', 'send_text', 'TEXT', 'isinstance(text, six.text_type)', 'is_text', 'payload',
+                              {"payload = text.encode('utf-8')": 'pass'})
+
+    @site('streamOnFrame')
+    def _():
+        sc = klass(T2['stream'], 'WebsocketStream')
+        init = [ast.unparse(s) for s in method(sc, '__init__').body]
+        require('self._frames = []' in init, 'WebsocketStream.__init__ no longer starts with an empty fragment list')
+        feed = method(sc, 'feed')
+        loop = only([s for s in feed.body if isinstance(s, ast.While)], 'the while loop of WebsocketStream.feed')
+        require(ast.unparse(loop.test) == 'True', 'WebsocketStream.feed loop is not `while True`')
+        st = loop.body[-1]
+        require(isinstance(st, ast.If) and ast.unparse(st.test) == 'frame.is_control', 'WebsocketStream.feed: the loop no longer ends with `if frame.is_control:`')
+        inside = list(ast.walk(st)) + list(ast.walk(method(sc, '__init__')))
+        require([s for s in ast.walk(sc) if isinstance(s, (ast.Assign, ast.AugAssign, ast.Delete, ast.Expr)) and 'self._frames' in ast.unparse(s)
+                 and s not in inside] == [], 'self._frames is used as a statement outside the frame dispatch')
+        return Site('streamOnFrame',
+                    'stream.py WebsocketStream.feed: the `if frame.is_control:` statement of the loop (frames = len(self._frames)); result = '
+                    '(message built: 0 none, 1 from [frame], 2 from self._frames; len(self._frames) afterwards)',
+                    [('opcode', NAT), ('fin', NAT), ('frames', NAT)], [st], prefix='built = 0', outputs=['built', 'frames'],
+                    bind={'self._frames': 'frames', 'frame.fin': 'fin', 'frame.opcode': 'opcode'},
+                    calls={'frame.is_control': ('frameIsControl', ['frame.opcode']),
+                           'frame.is_continuation': ('frameIsContinuation', ['frame.opcode'])},
+                    rewrite={'yield self.build_message([frame])': 'built = 1',
+                             'self._frames.append(frame)': 'self._frames = self._frames + 1',
+                             'yield self.build_message(self._frames)': 'built = 2',
+                             'del self._frames[:]': 'self._frames = 0'})
+
+    @site('textFromPayload')
+    def _():
+        c = klass(T['message'], 'Text')
+        init = [ast.unparse(x) for x in method(c, '__init__').body]
+        require(init[:1] == ['self.text = text'], 'Text.__init__ no longer stores text')
+        return Site('textFromPayload', "message.py Text.from_payload; result = text (decode = bytes.decode('utf-8'), none = UnicodeDecodeError)",
+                    [('payload', BYTES), ('decode', FN([BYTES], OPT(STR)))], body_of(method(c, 'from_payload')),
+                    externs={"payload.decode('utf-8')": ('decode', ['payload'], 'UnicodeDecodeError')},
+                    rewrite={'return cls(text)': 'return text'})
+
+    @site('selectorWait')
+    def _():
+        m = T2['selectors']
+        base = klass(m, 'SelectorBase')
+        for c in m.body:
+            if isinstance(c, ast.ClassDef) and c.name != 'SelectorBase':
+                require([ast.unparse(b) for b in c.bases] == ['SelectorBase'] and 'wait' not in [n.name for n in c.body if isinstance(n, ast.FunctionDef)],
+                        'selectors.%s overrides SelectorBase.wait' % c.name)
+        return Site('selectorWait',
+                    "selectors.py SelectorBase.wait (has_pending = hasattr(self._socket, 'pending'), pending = self._socket.pending(), "
+                    'readable = self.wait_readable(timeout=timeout))',
+                    [('has_pending', BOOL), ('pending', NAT), ('readable', BOOL), ('max_bytes', NAT)], body_of(method(base, 'wait')),
+                    bind={"hasattr(self._socket, 'pending')": 'has_pending', 'self._socket.pending()': 'pending',
+                          'self.wait_readable(timeout=timeout)': 'readable'})
+
+    @site('sessionConnectProxy')
+    def _():
+        prop_returns(ws_cls(), 'is_secure', "self.scheme == 'wss'")
+        return Site('sessionConnectProxy',
+                    'session.py WebsocketSession._connect: which proxy is used (proxies = self.websocket.proxies without its None values, '
+                    'secure = self.websocket.is_secure); result = proxy_url (None: a direct connection through _connect_sock)',
+                    [('proxies', DICT), ('secure', BOOL)], body_of(sess_fn('_connect')),
+                    bind={'self.websocket.proxies': 'proxies', 'self.websocket.is_secure': 'secure'}, locals={'proxy_url': OPT(STR)},
+                    rewrite={'sock = self._connect_proxy(proxy)': 'pass',
+                             'sock = self._connect_sock(self.websocket.host, self.websocket.port, ssl=self.websocket.is_secure)': 'pass',
+                             'sock.settimeout(None)': 'pass', 'return (sock, proxy_url)': 'return proxy_url'})
 
     return sites
 
